@@ -1,7 +1,7 @@
 #!/bin/sh
 # Copies the harness runtime (intrinsic declarations, native bodies, replay test) from package diam
 # to the other harness packages, rewriting the package clause.
-cd /verif/harness/diam || exit 1
+cd "$(dirname "$0")/harness/diam" || exit 1
 for pkg in sm; do
   for f in zz_verif_rt.go zz_verif_rt_native.go zz_verif_replay_test.go zz_verif_transport.go; do
     sed "s/^package diam$/package $pkg/" "$f" > "$pkg/$f"
